@@ -357,7 +357,7 @@ def run(ctx):
     with open(os.path.join(ctx.work, "c01_ds_in.jsonl"), "w") as f:
         for c in cases:
             f.write(json.dumps(c) + "\n")
-    for fn in ("c01_ds_out.jsonl", "c01_restart_out.jsonl", "c01_stress_out.jsonl", "c01_scen_out.jsonl", "c01_grain_out.jsonl"):
+    for fn in ("c01_ds_out.jsonl", "c01_restart_out.jsonl", "c01_stress_out.jsonl", "c01_scen_out.jsonl", "c01_grain_out.jsonl", "c01_inflight_out.jsonl", "c01_grain_react_out.jsonl"):
         p = os.path.join(ctx.work, fn)
         if os.path.exists(p):
             os.remove(p)
@@ -369,7 +369,9 @@ def run(ctx):
     stress = read_jsonl(os.path.join(ctx.work, "c01_stress_out.jsonl"))
     scen = read_jsonl(os.path.join(ctx.work, "c01_scen_out.jsonl"))
     grain = read_jsonl(os.path.join(ctx.work, "c01_grain_out.jsonl"))
-    if rc != 0 or len(ds) != len(cases) or not rs or not stress or not scen or not grain:
+    inflight = read_jsonl(os.path.join(ctx.work, "c01_inflight_out.jsonl"))
+    greact = read_jsonl(os.path.join(ctx.work, "c01_grain_react_out.jsonl"))
+    if rc != 0 or len(ds) != len(cases) or not rs or not stress or not scen or not grain or not inflight or not greact:
         ctx.tie_broken("go-harness TestVerifC01*", out)
     if thorough_race(ctx):
         os.makedirs(os.path.join(ctx.work, "race"), exist_ok=True)
@@ -388,6 +390,16 @@ def run(ctx):
             n_bad += 1
             ctx.violation("handler-overlap:grain-stress", "two OnReceive invocations of one grain overlapped (max concurrent %d): %s" % (o["max_concurrent"], o["overlap_at"]), o)
 
+    for o, sig in ((inflight[0] if inflight else None, "restart-while-receive-in-flight"), (greact[0] if greact else None, "grain:reactivation-after-failed-deactivate-mid-turn")):
+        if o is None:
+            continue
+        if o["overlap"]:
+            n_bad += 1
+            ctx.violation("handler-overlap:" + sig,
+                          "%s: a second handler invocation ran while the first was still in progress (max concurrent %d: %s; dispatch state meanwhile %s)" %
+                          (o["scenario"], o["max_concurrent"], o["overlap_at"], o.get("state_while_receive_in_flight") or o.get("state_while_onreceive_in_flight")), o)
+        elif not o["completed"]:
+            ctx.tie_broken("scenario could not be driven: " + o["scenario"], o)
     # the restart witness: model outcome under the code's variant vs the real actors
     wit = rs[0] if rs else None
     if wit is not None:
@@ -432,7 +444,7 @@ def run(ctx):
         "overlap_findings": n_bad,
         "source_tie": {"offturn_reset_in_restartSubtree": flag, "embeddings_checked": tie["embeddings_checked"] if tie else None,
                        "problems": tie["problems"] if tie else None},
-        "restart_witness": wit,
+        "restart_witness": wit, "restart_in_flight": inflight[0] if inflight else None, "grain_reactivation": greact[0] if greact else None,
         "theorems": ["C01_mutex", "C01_partial", "C01_restart_refuted", "C01_handler_implies_processing", "C01_ticket_unique"],
     })
 
